@@ -68,8 +68,12 @@ def mpc_hash(z):
     if sys.version_info >= (3, 2):
         re, im = z
         h = mpf_hash(re) + sys.hash_info.imag * mpf_hash(im)
-        # Need to reduce either module 2^32 or 2^64
+        # Need to reduce either module 2^32 or 2^64 (into the signed range,
+        # as the built-in complex type does)
         h = h % (2**sys.hash_info.width)
+        if h >= 2**(sys.hash_info.width-1):
+            h -= 2**sys.hash_info.width
+        if h == -1: h = -2
         return int(h)
     else:
         try:
